@@ -112,4 +112,10 @@ impl Module {
     pub fn doc(&self) -> Option<&str> {
         self.doc.as_deref()
     }
+
+    /// Verification hook: read access to the module's extern values.
+    #[cfg(feature = "pyxis_verif")]
+    pub fn verif_extern_values(&self) -> &[ExternValue] {
+        &self.extern_values
+    }
 }
